@@ -176,7 +176,7 @@ pub fn specs() -> Vec<PropSpec> {
             engine: "rights",
             budget_s: (50, 600),
             level: "exploration",
-            rule: "as C01 with room-definition steps, restarts and decision-grid barriers weighted up; at each barrier the in-memory room of every node (live on the mutating node, imported on the others, reloaded after restart) is questioned over {identities} x {entities, unknown entity} x {every entry date +-1 ms} x {admin, member, own-rows, all-rows} and compared with the rights model; every restart must succeed",
+            rule: "as C01 with room-definition steps, restarts and decision-grid barriers weighted up; at each barrier the in-memory room of every node (live on the mutating node, imported on the others, reloaded after restart) is questioned over {identities} x {entities, unknown entity} x {every entry date +-1 ms} x {admin, member, own-rows, all-rows} and compared with the rights model; every restart must succeed; at random points an instance that never saw the rooms imports every room from every node (late joiner), answers the same grid, restarts and answers it again",
             assumptions: &["same rights model as C01"],
             real: repl_real,
             stub: STUB_NET,
@@ -278,7 +278,7 @@ pub fn specs() -> Vec<PropSpec> {
             engine: "byz,rights",
             budget_s: (40, 600),
             level: "exploration",
-            rule: "as C02 with the signature operators: a validly signed reference re-cut at the boundary between its unlength-prefixed fields (source entity \"11\" + label \"32\" -> \"1\" + \"132\", both reference fields of a model built for the purpose), and rows / references in H's name whose signature is the answer H gives to an identity challenge chosen by M; nothing H did not write may be stored by V under H's key",
+            rule: "two engines, alternating seeds. rights: the C01 workload (every operation shape by 2-4 identities, barriered pulls) with, after every accepted local operation and after every synchronisation, every stored row, reference and deletion record of every node verified against its own signature exactly as stored. byz: as C02 with the signature operators: a validly signed reference re-cut at the boundary between its unlength-prefixed fields (source entity \"11\" + label \"32\" -> \"1\" + \"132\", both reference fields of a model built for the purpose), and rows / references in H's name whose signature is the answer H gives to an identity challenge chosen by M; nothing H did not write may be stored by V under H's key",
             assumptions: &["splices need adjacent variable-length fields in the digest: only references have them (rows serialise their fields through JSON and fixed-size values)"],
             real: repl_real,
             stub: STUB_NET,
